@@ -878,6 +878,19 @@ def _phase3_extra(tr_or_none):
     except Untranslatable as e:
         text += FALLBACK3.format(reason=str(e).replace("-/", "- /"))
         st.update({n: f"skipped: {e}" for n in names3})
+    try:
+        tr = tr_or_none or Tr()
+        rows = instance_state_writes(tr.tree) + instance_state_writes(tr.ssl_tree)
+        cells = ", ".join(f'("{c}", "{m_}", "{a}", "{h}")' for c, m_, a, h in rows)
+        ncls = sum(1 for n in ast.walk(tr.tree) if isinstance(n, ast.ClassDef)) + sum(1 for n in ast.walk(tr.ssl_tree) if isinstance(n, ast.ClassDef))
+        text += (f"/-- translated from every class of `{MT}` and `{SSL}` ({ncls} classes): writes to instance / class / module\n"
+                 f"state in methods other than `__init__` (class, method, attribute, how) -/\n"
+                 f"def instance_state_writes : StateWrites := [{cells}]\n"
+                 f"def classes_scanned : Nat := {ncls}\n\n")
+        st["instance_state_writes"] = "translated"
+    except Untranslatable as e:       # pragma: no cover
+        text += "def instance_state_writes : StateWrites := []\ndef classes_scanned : Nat := 0\n"
+        st["instance_state_writes"] = f"skipped: {e}"
     return text, st
 
 
@@ -1667,6 +1680,70 @@ class StageExec:
         self.retval = None
         self.run_body(self.fn.body)
         return self.finish()
+
+
+# ---- "no instance / class / module state written after construction" -------------------------------
+MUTATORS = {"append", "extend", "insert", "update", "setdefault", "add", "pop", "popitem", "clear", "remove", "discard",
+            "appendleft", "sort", "reverse", "__setitem__", "copy_", "fill_", "zero_", "add_", "mul_", "div_", "sub_"}
+
+
+def _self_root(t: ast.AST):
+    """`self.a`, `self.a[i]`, `self.a.b[j]` … -> "a" (the instance attribute that is written); None otherwise"""
+    while isinstance(t, (ast.Subscript, ast.Starred)):
+        t = t.value
+    chain = []
+    while isinstance(t, ast.Attribute):
+        chain.append(t.attr)
+        t = t.value
+    if isinstance(t, ast.Name) and t.id in ("self", "cls") and chain:
+        return chain[-1]
+    if isinstance(t, ast.Call) and ast.unparse(t.func) in ("type", "super") and chain:
+        return "type(self)." + chain[-1]
+    if isinstance(t, ast.Attribute):
+        return None
+    return None
+
+
+def instance_state_writes(tree: ast.Module) -> list[tuple[str, str, str, str]]:
+    """(class, method, attribute, how) for every write to instance / class / module state outside `__init__`"""
+    rows = []
+    for cls in [n for n in ast.walk(tree) if isinstance(n, ast.ClassDef)]:
+        for fn in [n for n in cls.body if isinstance(n, (ast.FunctionDef, ast.AsyncFunctionDef))]:
+            if fn.name == "__init__":
+                continue
+            for node in ast.walk(fn):
+                targets = []
+                if isinstance(node, ast.Assign):
+                    targets = list(node.targets)
+                elif isinstance(node, (ast.AugAssign, ast.AnnAssign)):
+                    targets = [node.target]
+                elif isinstance(node, ast.Delete):
+                    targets = list(node.targets)
+                elif isinstance(node, (ast.For, ast.AsyncFor)):
+                    targets = [node.target]
+                elif isinstance(node, ast.NamedExpr):
+                    targets = [node.target]
+                flat = []
+                for t in targets:
+                    flat.extend(t.elts if isinstance(t, (ast.Tuple, ast.List)) else [t])
+                for t in flat:
+                    a = _self_root(t)
+                    if a is not None:
+                        rows.append((cls.name, fn.name, a, "assign"))
+                if isinstance(node, ast.Call) and isinstance(node.func, ast.Attribute) and node.func.attr in MUTATORS:
+                    a = _self_root(node.func.value)
+                    if a is not None:
+                        rows.append((cls.name, fn.name, a, node.func.attr))
+                if isinstance(node, (ast.Global, ast.Nonlocal)):
+                    rows.append((cls.name, fn.name, ",".join(node.names), "global"))
+                if isinstance(node, ast.Call) and ast.unparse(node.func) in ("setattr", "delattr", "object.__setattr__"):
+                    rows.append((cls.name, fn.name, ast.unparse(node.args[1]) if len(node.args) > 1 else "?", "setattr"))
+                if isinstance(node, ast.Call) and ast.unparse(node.func) in ("functools.lru_cache", "lru_cache", "functools.cache", "cache"):
+                    rows.append((cls.name, fn.name, "cache", "memo"))
+            for dec in fn.decorator_list:
+                if "cache" in ast.unparse(dec):
+                    rows.append((cls.name, fn.name, ast.unparse(dec), "memo"))
+    return sorted(set(rows))
 
 
 PERCENTILE_LOOP = """for _ in range(data.size(0)):
